@@ -13,7 +13,7 @@ from checks import c02
 
 LEVEL = "exploration"
 CONJ = {"global_error_within_constant_times_tolerance", "euler_error_within_first_order_bound",
-        "dynamic_dimension_reproduces_static_solution"}
+        "dynamic_dimension_reproduces_static_solution", "complex_solved_as_accurately_as_equivalent_real_system"}
 FAMS = [["lin"], ["rot", "lin"], ["tv"], ["logistic", "recip"], ["forcing", "relax"]]
 
 
@@ -33,6 +33,31 @@ def gen(ctx, rng, rungs, nfam, ncx, npair):
             c = ivpgen.accuracy_case(rng, solver, None, 10.0 ** (-rng.uniform(3, 9)), dim=rng.randint(1, 2), cx=True)
             c["acc"] = "global"
             cases.append(c)
+    # complex problem versus its equivalent real system, same (loose) step bounds: the error control, not the step
+    # cap, has to deliver the accuracy in both
+    for solver in ivpgen.ADAPTIVE:
+        for j in range(ncx + 1):
+            d = 2 if j == 0 else rng.randint(1, 2)
+            same = (d == 2 and j % 2 == 0)        # equal rates, initial components in phase quadrature
+            lams = []
+            for k in range(d):
+                lams.append(lams[0] if (same and k) else (rng.uniform(-0.6, 0.2), rng.uniform(0.8, 3.0) * rng.choice([-1, 1])))
+            u = complex(rng.uniform(0.5, 1.5), rng.uniform(-0.5, 0.5))
+            y0c = [u, u * 1j] if same else [complex(rng.uniform(0.5, 1.5), rng.uniform(-1, 1)) for _ in range(d)]
+            span = rng.uniform(1.0, 3.0)
+            dtmax = rng.uniform(0.2, 0.5)
+            tol = 10.0 ** (-rng.uniform(6, 9)) if solver not in ("bdf2",) else 10.0 ** (-rng.uniform(5, 7))
+            t0 = 0.0
+            cb = {"fam": "blocks", "blocks": [{"k": "clin", "p": [vlib.float_to_pair(a), vlib.float_to_pair(b), vlib.float_to_pair(0.0), vlib.float_to_pair(0.0)]} for a, b in lams]}
+            rb = {"fam": "blocks", "blocks": [{"k": "rot", "p": [vlib.float_to_pair(a), vlib.float_to_pair(b)]} for a, b in lams]}
+            rate = max((a * a + b * b) ** 0.5 for a, b in lams)
+            ra = ivpgen.base_case(0, solver, 2 * d, t0, t0 + span, dtmax * 1e-7, dtmax, tol, rb,
+                                  [ivpgen.cpair(v) for z in y0c for v in (z.real, z.imag)], lip=vlib.float_to_pair(rate), acc="twin", pair="RA",
+                                  budget=3000000, max_items=200000)
+            cbc = ivpgen.base_case(0, solver, d, t0, t0 + span, dtmax * 1e-7, dtmax, tol, cb,
+                                   [ivpgen.cpair(z.real, z.imag) for z in y0c], cx=True, lip=vlib.float_to_pair(rate), acc="twin", pair="CB",
+                                   budget=3000000, max_items=200000)
+            cases += [ra, cbc]
     # Euler step ladders
     for fam in FAMS[:nfam]:
         rng2 = random.Random(hash((ctx.seed, "euler", tuple(fam))) & 0xFFFFFF)
@@ -74,7 +99,22 @@ def run(ctx):
 
 def replay(ctx, body):
     c = dict(body["case"], budget=3000000, extra_next=2, max_items=200000, snaps=False, evals=False, work=False)
-    if c.get("pair") in ("A", "B"):
+    if c.get("pair") in ("RA", "CB"):
+        # rebuild the twin: real rot blocks <-> complex clin blocks
+        blocks = c["rhs"]["blocks"]
+        if c["pair"] == "CB":
+            cb = dict(c)
+            ra = dict(c, pair="RA", cx=False, dim=2 * c["dim"],
+                      rhs={"fam": "blocks", "blocks": [{"k": "rot", "p": b["p"][:2]} for b in blocks]},
+                      y0=[[z[k], vlib.float_to_pair(0.0)] for z in c["y0"] for k in (0, 1)])
+        else:
+            ra = dict(c)
+            ys = c["y0"]
+            cb = dict(c, pair="CB", cx=True, dim=c["dim"] // 2,
+                      rhs={"fam": "blocks", "blocks": [{"k": "clin", "p": b["p"] + [vlib.float_to_pair(0.0)] * 2} for b in blocks]},
+                      y0=[[ys[2 * k][0], ys[2 * k + 1][0]] for k in range(c["dim"] // 2)])
+        c02.judge(ctx, [ra, cb], conj=CONJ, tag="c04")
+    elif c.get("pair") in ("A", "B"):
         a = dict(c, pair="A", dyn=False)
         b = dict(c, pair="B", dyn=True)
         c02.judge(ctx, [a, b], conj=CONJ, tag="c04")
